@@ -14,6 +14,7 @@ VERIF = os.path.dirname(os.path.dirname(os.path.abspath(__file__)))
 EXTRA = {"C01": ["C14", "C05", "C06", "C02"], "C08": ["C09"], "C04": ["C02", "C19"], "C15": ["C01"]}
 tier = sys.argv[1] if len(sys.argv) > 1 else "quick"
 src_glob = sys.argv[2] if len(sys.argv) > 2 else "/tmp/wt_C*/_out/m*.diff"
+tag = sys.argv[3] if len(sys.argv) > 3 else ""
 
 
 def one(diff):
@@ -28,7 +29,7 @@ def one(diff):
         res = json.loads(r.stdout[r.stdout.index("{"):])
     except Exception as e:  # noqa: BLE001
         return prop, k, {"error": str(e), "out": r.stdout[-500:] + r.stderr[-500:]}
-    d = os.path.join(VERIF, "seeded", f"{prop}-{k}")
+    d = os.path.join(VERIF, "seeded", f"{prop}-{tag}{k}")
     os.makedirs(d, exist_ok=True)
     shutil.copy(diff, os.path.join(d, "patch.diff"))
     if os.path.exists(demo):
